@@ -277,6 +277,24 @@ func runC09(c *core.Ctx) {
 			}
 		}
 	}
+	// ---- contains on text: the needle is text, never the spelling Go gives to some other value -------------------------------
+	if c.Shard == 10%c.NShards && c.Begin("string-contains-needles") {
+		for _, cs := range []struct {
+			hay    string
+			needle any
+			want   string
+		}{{"a<nil>b", nil, "false"}, {"<nil>", nil, "false"}, {"", nil, "false"}, {"abc", "", "true"}, {"a<nil>b", "<nil>", "true"}, {"héllo", "é", "true"}, {"héllo", "e", "false"}, {"abc", gen.NTitle("bc"), "true"},
+			{"abc", gen.DropV{X: "b"}, "true"}, {"abc", gen.DropV{X: nil}, "false"}} {
+			b := map[string]any{"s": cs.hay, "n": cs.needle, "h": map[string]any{"s": cs.hay}}
+			res := core.Run(e, "{% if s contains n %}true{% else %}false{% endif %}|{{ h.s contains n }}", b)
+			c.Eval(1)
+			c.Obs("string_contains_cases", 1)
+			c.Distinct("strcontains", cs.hay, gen.Describe(cs.needle))
+			if !res.OK() || res.Out != cs.want+"|"+cs.want {
+				c.Violate("string-contains|"+gen.Describe(cs.needle), "a string contains a needle when the needle is text that occurs in it; nil is not text", map[string]any{"string": cs.hay, "needle": gen.Describe(cs.needle), "expected": cs.want, "observed": res.Brief()})
+			}
+		}
+	}
 	// ---- integers at the edges of the signed and unsigned ranges compare by numeric value ---------------------------
 	if c.Shard == 4%c.NShards && c.Begin("integer-extremes") {
 		type iv struct {
